@@ -110,12 +110,13 @@ def rule_table(prog):
     # str_to_oscode / add_default_str_osc_mappings) has an arm — a key kanata knows must be decodable
     named = set()
     for nm in ("kanata_parser::keys::str_to_oscode", "kanata_parser::keys::add_default_str_osc_mappings"):
-        g = prog.fn(nm)
-        res.fn(g)
-        for bi, si, st in g.all_rvalues():
-            rv = st["rv"]
-            if rv["k"] == "agg" and rv.get("adt") == OSCODE:
-                named.add(rv["v"])
+        g0 = prog.fn(nm)
+        for g in [g0] + list(prog.closures_of(g0)):      # `custom(s).or_else(|| fixed_names(s))`: the table may sit in a closure
+            res.fn(g)
+            for bi, si, st in g.all_rvalues():
+                rv = st["rv"]
+                if rv["k"] == "agg" and rv.get("adt") == OSCODE:
+                    named.add(rv["v"])
     res.notes.append("named variants: %d, variants: %d, arms: %d" % (len(named), len(variants), len(seen)))
     if len(named) < 150:
         res.viol("named/census", f.loc, "only %d named OsCode variants found in the name tables (expected >= 150)" % len(named))
@@ -237,9 +238,20 @@ def rule_gate(prog):
                     if is_const(o) and o["c"].get("ty") == "u16" and const_val(o) is not None:
                         consts.add((rv["op"], const_val(o)))
     ok = ("Le", lo) in consts and ("Le", hi) in consts
-    res.inst("sequences/range", consts=sorted(consts))
     if not ok:
-        res.viol("sequences/range", sq.loc, "sequence termination no longer skips exactly the reserved range %d..=%d (found %s)" % (lo, hi, sorted(consts)))
+        # the same test written `(LO..=HI).contains(&code)` (possibly in a helper, analysed inlined)
+        for g in [sq] + prog.closures_of(sq):
+            gfl = None
+            for bi, t in g.calls():
+                cn = callee_name(t) or ""
+                if cn.split("::")[-1] == "contains" and "core::ops::range::Range" in cn and len(t["args"]) == 2:
+                    gfl = gfl or GuardFlow(g, identity_calls=[U16_FROM_OSC])
+                    if gfl._const_range(t["args"][0]) == (lo, hi):
+                        ok = True
+                        consts.add(("contains", "%d..=%d" % (lo, hi)))
+    res.inst("sequences/range", consts=sorted(consts, key=str))
+    if not ok:
+        res.viol("sequences/range", sq.loc, "sequence termination no longer skips exactly the reserved range %d..=%d (found %s)" % (lo, hi, sorted(consts, key=str)))
     return res
 
 
@@ -304,8 +316,9 @@ def rule_defsrc_identity(prog):
     res.fn(f)
     DROP = ("filter", "and_then", "filter_map", "take_if", "xor", "then", "then_some", "zip", "ok_or", "checked_sub")
     calls = [(bi, t, (callee_name(t) or "").split("::")[-1]) for bi, t in f.calls()]
-    has_from = any(n == "from_u16" for _, _, n in calls)
-    droppers = [(t.get("ln"), n) for _, t, n in calls if n in DROP]
+    fam_calls = calls + [(bi, t, (callee_name(t) or "").split("::")[-1]) for c in prog.closures_of(f) for bi, t in c.calls()]
+    has_from = any(n == "from_u16" for _, _, n in fam_calls)
+    droppers = [(t.get("ln"), n) for _, t, n in fam_calls if n in DROP]
     cmps = [f.line_of(bi, si) for bi, si, st in f.all_rvalues() if st["rv"]["k"] == "bin" and st["rv"]["op"] in ("Eq", "Ne")
             and f.line_of(bi, si) and not st.get("mac")]
     ok = has_from and not droppers
@@ -323,11 +336,40 @@ def rule_defsrc_identity(prog):
                 aggs = [st for b in c.reachable() for st in c.stmts(b) if st["k"] == "assign" and st["rv"]["k"] == "agg" and st["rv"].get("v") == "KeyCode"]
                 sw = [b for b in c.reachable() if c.term(b)["k"] == "switch"]
                 okc = bool(aggs) and not sw
+    if not okc:
+        okc = _match_form(prog, f)
     res.inst("closure-builds-keycode", where=f.loc, ok=okc)
     res.oblige(okc)
     if not okc:
         res.viol("closure-builds-keycode", f.loc, "the closure given to map() no longer builds Action::KeyCode on a single unconditional path")
     return res
+
+
+def _match_form(prog, f):
+    """`match OsCode::from_u16(i) { Some(osc) [if i != 0] => Action::KeyCode(osc.into()), _ => NoOp }` (in the function or in a
+    closure of it, e.g. the one given to array::from_fn): the Some arm builds KeyCode, and the only tests in that arm compare
+    with the constant 0 (index 0 is forced to NoOp)."""
+    from kq.analysis import discr_switches
+    for g in [f] + list(prog.closures_of(f)):
+        froms = [(bi, t) for bi, t in g.calls() if (callee_name(t) or "").split("::")[-1] == "from_u16"]
+        if not froms:
+            continue
+        for sw in discr_switches(prog, g, "core::option::Option"):
+            if "Some" not in sw.arms and sw.target("Some") is None:
+                continue
+            region = sw.arm_region("Some")
+            builds = any(st["k"] == "assign" and st["rv"]["k"] == "agg" and st["rv"].get("v") == "KeyCode" for b in region for st in g.stmts(b))
+            tests_ok = True
+            for b in region:
+                for st in g.stmts(b):
+                    if st["k"] == "assign" and st["rv"]["k"] == "bin" and st["rv"]["op"] in ("Eq", "Ne", "Lt", "Le", "Gt", "Ge") and not st.get("mac"):
+                        if not any(is_const(o) and const_val(o) == 0 for o in (st["rv"]["a"], st["rv"]["b"])):
+                            tests_ok = False
+                if g.term(b)["k"] == "call" and (callee_name(g.term(b)) or "").split("::")[-1] in ("eq", "ne", "contains", "matches"):
+                    tests_ok = False
+            if builds and tests_ok:
+                return True
+    return False
 
 
 def rule_btn_tables(prog):
